@@ -21,7 +21,7 @@ Definition pend_cfg : config :=
    gate returned nil and runnable 1 was started ([LLaunch 1; LRunCall 1]); now the gate returns the
    queued failure, nothing is started and Run() returns that error. *)
 Definition pend_prefix : list label :=
-  [LLaunch 0; LRunCall 0; LMonSub 0; LMonRecv 0; LPollBegin 0; LRunRet 0 (Some (7, false)); LErrSend 0;
+  [LLaunch 0; LRunStore 0; LRunCall 0; LMonSub 0; LMonRecv 0; LPollBegin 0; LRunRet 0 (Some (7, false)); LErrSend 0;
    LQuiet; LParentCancel; LPoll 0 false; LGateCtx 0].
 Definition pend_sched : list label :=
   pend_prefix ++ [LMainShutdown; LStopCall 0; LStopRet 0; LSdCancel; LStmExit; LSdWgDone; LMainReturn (ResErr 7)].
@@ -43,6 +43,9 @@ Definition is_real_ev (e : event) : bool :=
   match e with ERunRet _ (Some (_, false)) => true | _ => false end.
 Definition is_quiet_ev (e : event) : bool :=
   match e with EQuiet | ESnap _ => true | _ => false end.
+
+(* a launched goroutine that has not entered the runnable's Run yet *)
+Definition waiting (p : rn_pc) : Prop := p = RnLaunched \/ p = RnStored.
 
 Definition decided (s : state) : Prop := main_res (main s) <> None.
 Definition at_gate (s : state) : Prop := exists j, main s = MGate j \/ main s = MGateCheck j.
@@ -67,8 +70,11 @@ Inductive pe_effect (c : config) (s s' : state) : Prop :=
 | pe_send i e :
     rn_at s i = RnSending e -> rn s' = upd (rn s) i RnDone -> errq s' = errq s ++ [e] ->
     main s' = main s -> hist s' = hist s -> pe_effect c s s'
+| pe_runstore i :
+    rn_at s i = RnLaunched -> rn s' = upd (rn s) i RnStored -> main s' = main s -> errq s' = errq s ->
+    hist s' = hist s -> pe_effect c s s'
 | pe_runcall i :
-    rn_at s i = RnLaunched -> rn s' = upd (rn s) i RnRunning -> main s' = main s -> errq s' = errq s ->
+    waiting (rn_at s i) -> rn s' = upd (rn s) i RnRunning -> main s' = main s -> errq s' = errq s ->
     hist s' = ERunCall i :: hist s -> pe_effect c s s'
 | pe_other :
     (main s' = main s \/ exists i, main s = MGate i /\ main s' = MGateCheck i) ->
@@ -99,7 +105,8 @@ Proof.
             right; eexists; split; [reflexivity|split; reflexivity]]; fail).
   all: try (eapply pe_open; [first [left; eassumption|right; eassumption]|assumption|
                              reflexivity|reflexivity|reflexivity|reflexivity]; fail).
-  all: try (eapply pe_runcall; [eassumption|reflexivity|reflexivity|reflexivity|reflexivity]; fail).
+  all: try (eapply pe_runcall; [first [left; eassumption|right; eassumption]|reflexivity|reflexivity|reflexivity|reflexivity]; fail).
+  all: try (eapply pe_runstore; [eassumption|reflexivity|reflexivity|reflexivity|reflexivity]; fail).
   all: try (eapply (pe_runret c _ _ _ (Some (_, true))); [eassumption|reflexivity|reflexivity|reflexivity|reflexivity]; fail).
   all: try (eapply (pe_runret c _ _ _ (Some (_, false))); [eassumption|reflexivity|reflexivity|reflexivity|reflexivity]; fail).
   all: try (eapply (pe_runret c _ _ _ None); [eassumption|reflexivity|reflexivity|reflexivity|reflexivity]; fail).
@@ -149,7 +156,7 @@ Definition InvA (s : state) : Prop :=
    has fixed its result or sits at a gate with the error queued *)
 Definition InvB (s : state) : Prop :=
   err_then_quiet false (rev (hist s)) = true ->
-  (forall i, rn_at s i <> RnLaunched) /\ (decided s \/ (errq s <> [] /\ at_gate s)).
+  (forall i, ~ waiting (rn_at s i)) /\ (decided s \/ (errq s <> [] /\ at_gate s)).
 
 Lemma rn_at_lt s i : rn_at s i <> RnDone -> i < length (rn s).
 Proof.
@@ -187,15 +194,23 @@ Proof.
   apply Nat.ltb_lt in Li. rewrite Li in H. discriminate H.
 Qed.
 
-Lemma quiet_no_launched c s i : length (rn s) = nrun c -> quiescent c s = true -> rn_at s i <> RnLaunched.
+Lemma quiet_no_launched c s i : length (rn s) = nrun c -> quiescent c s = true -> ~ waiting (rn_at s i).
 Proof.
-  intros Hl Q Hi.
-  assert (Li : i < nrun c) by (rewrite <- Hl; apply rn_at_lt; rewrite Hi; discriminate).
+  intros Hl Q Hw.
+  assert (Li : i < nrun c) by (rewrite <- Hl; apply rn_at_lt; destruct Hw as [E|E]; rewrite E; discriminate).
   assert (Hin : In (LRunCall i) (autos c s)).
   { unfold autos. rewrite !in_app_iff. left. apply in_map_iff. exists i. split; [reflexivity|now apply in_idxs]. }
-  pose proof (quiescent_autos _ _ _ Q Hin) as H. cbn [step0] in H. rewrite Hi in H.
-  apply Nat.ltb_lt in Li. rewrite Li in H. discriminate H.
+  assert (Hin2 : In (LRunStore i) (taus_nt c s))
+    by (in_chain ltac:(apply in_map_iff; exists i; split; [reflexivity|now apply in_idxs])).
+  pose proof (quiescent_autos _ _ _ Q Hin) as H. pose proof (quiescent_taus _ _ _ Q Hin2) as H2.
+  cbn [step0] in H, H2. apply Nat.ltb_lt in Li. destruct Hw as [E|E]; rewrite E, Li in *.
+  - destruct (stateable (spec c i)); cbn [andb negb] in *; discriminate.
+  - discriminate H.
 Qed.
+
+Lemma not_waiting_upd (l : list rn_pc) i p :
+  (forall j, ~ waiting (get RnDone l j)) -> ~ waiting p -> forall j, ~ waiting (get RnDone (upd l i p) j).
+Proof. intros H Hp j. destruct (get_upd_cases RnDone l i j p) as [-> | ->]; auto. Qed.
 
 Lemma quiet_errq_main c s :
   0 < nrun c -> reachable_sup c s -> quiescent c s = true -> errq s <> [] -> decided s \/ at_gate s.
@@ -232,7 +247,8 @@ Proof.
   unfold InvA, InvB, sending in *.
   destruct (step_pe_effect _ _ _ _ H)
     as [i Em Es Li Er Eq Eh Emr | i Em Em' Er Eq Eh | i Hg Hc Em' Er Eq Eh | Hd Er Eh
-       | i e Ern Er Em Eq Eh | i e Ern Er Eq Em Eh | i Ern Er Em Eq Eh | Hm Er Eq Eh | x Hq Q Eh Em Er Eq].
+       | i e Ern Er Em Eq Eh | i e Ern Er Eq Em Eh | i Ern Er Em Eq Eh | i Ern Er Em Eq Eh | Hm Er Eq Eh
+       | x Hq Q Eh Em Er Eq].
   - (* launch *)
     assert (Hi : rn_at s i = RnNot) by (apply (ig_launch _ _ IG i Em i); [lia|exact Li]).
     rewrite Eh, Eq. split.
@@ -275,23 +291,27 @@ Proof.
         left. exists i0, e0. unfold rn_at. rewrite Er, Hoth; [exact H0|]. intros ->. congruence.
     + intros R. rewrite etq_cons_nq in R by reflexivity.
       destruct (B R) as [NL H0]. split; [|exact H0].
-      intros j. unfold rn_at. rewrite Er.
-      destruct (get_upd_cases RnDone (rn s) i j (match e with Some (id, false) => RnSending id | _ => RnDone end)) as [-> | ->];
-        [destruct e as [[? []]|]; discriminate|apply NL].
+      unfold rn_at. rewrite Er. apply not_waiting_upd; [exact NL|].
+      intros [X|X]; destruct e as [[? []]|]; discriminate X.
   - (* the error is queued *)
     assert (Hne : errq s ++ [e] <> []) by (destruct (errq s); discriminate).
     rewrite Eh, Eq. unfold decided, at_gate. rewrite Em. fold (decided s). fold (at_gate s). split.
     + intros _. right; now left.
     + intros R. destruct (B R) as [NL H0]. split.
-      * intros j. unfold rn_at. rewrite Er.
-        destruct (get_upd_cases RnDone (rn s) i j RnDone) as [-> | ->]; [discriminate|apply NL].
+      * unfold rn_at. rewrite Er. apply not_waiting_upd; [exact NL|]. intros [X|X]; discriminate X.
       * destruct H0 as [H0|[_ H0]]; [now left|right; now split].
+  - (* startRunnable stores and broadcasts *)
+    rewrite Eh, Eq. unfold decided, at_gate. rewrite Em. fold (decided s). fold (at_gate s). split.
+    + intros R. destruct (A R) as [(i0 & e0 & H0)|[H0|H0]]; [|right; now left|right; now right].
+      left. exists i0, e0. unfold rn_at. rewrite Er, get_upd_other; [exact H0|]. intros <-.
+      unfold rn_at in *. congruence.
+    + intros R. destruct (B R) as [NL _]. exfalso. apply (NL i). now left.
   - (* a runnable's Run is invoked *)
     rewrite Eh, Eq. unfold decided, at_gate. rewrite Em. fold (decided s). fold (at_gate s). split.
     + intros R. cbn [real_in existsb is_real_ev orb] in R.
       destruct (A R) as [(i0 & e0 & H0)|[H0|H0]]; [|right; now left|right; now right].
       left. exists i0, e0. unfold rn_at. rewrite Er, get_upd_other; [exact H0|]. intros <-.
-      unfold rn_at in *. congruence.
+      unfold rn_at in *. destruct Ern as [X|X]; congruence.
     + intros R. rewrite etq_cons_nq in R by reflexivity.
       destruct (B R) as [NL _]. exfalso. exact (NL i Ern).
   - (* everything else *)
@@ -342,11 +362,14 @@ Proof.
   intros s0 l s1 e Hre Hs Ho. destruct e; try reflexivity. cbn [chk_pending].
   destruct l; try discriminate Ho. injection Ho as ->.
   unfold step in Hs. cbn [step0] in Hs.
-  destruct (rn_at s0 i) eqn:Er; try discriminate Hs.
-  destruct (Nat.ltb i (nrun c)) eqn:L; [|discriminate Hs]. apply Nat.ltb_lt in L.
+  assert (LW : i < nrun c /\ waiting (rn_at s0 i)).
+  { destruct (rn_at s0 i) eqn:Er; try discriminate Hs; (split; [|first [now left|now right]]);
+      destruct (Nat.ltb i (nrun c)) eqn:L; try (apply Nat.ltb_lt in L; exact L);
+      cbn [andb] in Hs; discriminate Hs. }
+  destruct LW as [L Hw].
   destruct (InvAB_reachable c s0 ltac:(lia) Hre) as [_ B]. unfold InvB in B.
   destruct (err_then_quiet false (rev (hist s0))) eqn:R; [|reflexivity].
-  destruct (B eq_refl) as [NL _]. exfalso. exact (NL i Er).
+  destruct (B eq_refl) as [NL _]. exfalso. exact (NL i Hw).
 Qed.
 
 (* the gate itself (fixes 8eb6141 and the pending-on-cancel repair): while a failure is queued, no
@@ -359,13 +382,15 @@ Proof.
   intros G Hq H. split.
   - destruct (step_pe_effect _ _ _ _ H)
       as [i Em Es Li Er Eq Eh Emr | i Em Em' Er Eq Eh | i Hg Hc' Em' Er Eq Eh | Hd Er Eh
-         | i e Ern Er Em Eq Eh | i e Ern Er Eq Em Eh | i Ern Er Em Eq Eh | Hm Er Eq Eh | x Hx Q Eh Em Er Eq].
+         | i e Ern Er Em Eq Eh | i e Ern Er Eq Em Eh | i Ern Er Em Eq Eh | i Ern Er Em Eq Eh | Hm Er Eq Eh
+         | x Hx Q Eh Em Er Eq].
     + exfalso. exact (at_gate_not_launch _ _ Em G).
     + exfalso. exact (at_gate_not_launch _ _ Em G).
     + exfalso. congruence.
     + now right.
     + left. unfold at_gate. rewrite Em, Eq. now split.
     + left. unfold at_gate. rewrite Em, Eq. split; [exact G|]. destruct (errq s); discriminate.
+    + left. unfold at_gate. rewrite Em, Eq. now split.
     + left. unfold at_gate. rewrite Em, Eq. now split.
     + left. rewrite Eq. split; [|exact Hq]. unfold at_gate in *.
       destruct Hm as [->|(i & E & ->)]; [exact G|]. exists i. now right.
@@ -384,7 +409,7 @@ Qed.
    gate with the error still queued *)
 Theorem sup_c03_pending_quiescent c s :
   0 < nrun c -> reachable_sup c s -> quiescent c s = true -> real_in (hist s) = true ->
-  (forall i, rn_at s i <> RnLaunched) /\ (decided s \/ (errq s <> [] /\ at_gate s)).
+  (forall i, ~ waiting (rn_at s i)) /\ (decided s \/ (errq s <> [] /\ at_gate s)).
 Proof.
   intros Hn Hre Q R. destruct (InvAB_reachable c s Hn Hre) as [A _].
   pose proof (ig_len _ _ (InvGate_reachable _ _ Hre)) as Hl.
